@@ -1,1 +1,394 @@
-/- C05 — property theorems (stub: not built yet). -/
+/-
+C05 — BMS writing produces a file that denotes the in-memory chart.
+Property theorems about the executable writer model (`Reamber/Model/BMS.lean`: `write`, `writeCells`,
+`linesOfCells`, `fillSeq`, `newDens`, on top of K1's `snaps` and `findLcm`), tied to reamber/bms/BMSMap.py,
+reamber/algorithms/timing/utils/find_lcm.py by the correspondence check and the generated constants, against
+`Spec/BMS.lean` (`denote`, `lineValid`).
+
+Full statement aimed at (kept visible; the theorems below are its proved parts):
+
+  ∀ layout chart (4/4 tempo points on measure lines, first at 0, tempos with ≤ 3 decimals, columns of the layout,
+    no two objects on one (lane, slot), nothing inside a hold of its lane, measures ≤ 999),
+    ∃ lines d, write defaultGrid layout "01" chart = .ok lines ∧ denote (bookLayout layout) lines = some d ∧
+      d.hits ≈ chart.hits ∧ d.holds ≈ chart.holds ∧ d.tempo ≈ chart.bpms   (= on the snap grid, ≤ 1/192 beat off it) ∧
+      ∀ l ∈ lines, isDataLine l → lineValid l
+
+Proved: `findLcm_dvd` (invariant of the double loop), `newDens_dvd`, `slot_exact` (re-slotting keeps the position),
+`slot_roundtrip` (a written slot denotes exactly the row's snap),
+`no_merge_no_drop` (line level: every cell's id sits on its slot, every other slot is `00`, the line has `den`
+slots), `line_valid`, `base36_roundtrip` (ids of up to 1295 tempo points are distinct two-character ids),
+`writer_consts_tie`, and `bpm_3f_counterexample` (D06).
+`bms_write_read` itself is NOT proved (`_partial` below only composes the slot lemmas); missing: K1's
+`snaps` = nearest grid position under the measure-line hypothesis (C10's domain), the grouping of cells into lines
+(`lineKeys` covers every cell), and the text-level `denote ∘ render` bridge.
+-/
+import Reamber.Lemmas.FindLcm
+import Reamber.Model.BMS
+import Reamber.Spec.BMS
+import Mathlib.Tactic.Ring
+import Mathlib.Tactic.FieldSimp
+import Mathlib.Tactic.Linarith
+import Mathlib.Algebra.Order.Field.Rat
+
+namespace Reamber.BMS
+
+open Reamber.Timing
+
+/-- Tie to the source: the constants the writer model uses are the ones in `BMSMap.py` (threshold passed to
+`find_lcm`, decimals of the `#BPMxx` table, the bound of the `assert`, defaults of `write`). -/
+theorem writer_consts_tie :
+    Generated.BMS.lcmThreshold = 100 ∧ Generated.BMS.exbpmDecimals = 3 ∧ Generated.BMS.maxBpms = 35 * 36 + 35 ∧
+    Generated.BMS.noSampleDefault = "01" ∧ Generated.BMS.defaultLnEnd = "ZZ" ∧ Generated.BMS.defaultLayoutWrite = "BME" ∧
+    Generated.BMS.defaultMetronome = 4 := by
+  decide +kernel
+
+/-! ### ids -/
+
+def unb36Digit (c : Char) : Nat := if isDigit c then c.toNat - 48 else c.toNat - 55
+
+def unb36 (b : Bytes) : Nat :=
+  match b with
+  | [x, y] => 36 * unb36Digit x + unb36Digit y
+  | _ => 0
+
+/-- **Ids of tempo points**: for `e ≤ 1295` the id is two base-36 characters that decode back to `e` — so the
+ids of up to 1295 tempo points are pairwise distinct, and none of them is `00`. -/
+theorem base36_roundtrip :
+    ∀ e, e < 1296 → unb36 (base36 e) = e ∧ (base36 e).length = 2 ∧ (base36 e).all isB36 = true ∧ (0 < e → base36 e ≠ ['0', '0']) := by
+  decide +kernel
+
+/-! ### slots -/
+
+/-- **Re-slotting is exact**: when the row's denominator divides its new denominator (what `findLcm_dvd`
+guarantees), `int(num · new_den / den)` is an exact quotient — the object keeps its position `num/den`, and
+stays inside the line. -/
+theorem slot_exact (s : WSlot) (nd : Nat) (hden : 0 < s.den) (hdvd : s.den ∣ nd) :
+    (cellOf s nd).idx * s.den = s.num * nd ∧ (s.num < s.den → 0 < nd → (cellOf s nd).idx < nd) := by
+  obtain ⟨k, rfl⟩ := hdvd
+  have hd : ((s.den : Nat) : Rat) ≠ 0 := by exact_mod_cast Nat.pos_iff_ne_zero.mp hden
+  have hq : (((s.num * (s.den * k) : Nat) : Rat) / ((s.den : Nat) : Rat)) = (((s.num * k : Nat) : Int) : Rat) := by
+    push_cast
+    field_simp
+  have hidx : (cellOf s (s.den * k)).idx = s.num * k := by
+    simp only [cellOf, hq, Rat.floor_intCast]
+    rfl
+  constructor
+  · rw [hidx]; ring
+  · intro hlt hnd
+    rw [hidx]
+    have hk : 0 < k := by
+      rcases Nat.eq_zero_or_pos k with hk | hk
+      · subst hk; simp at hnd
+      · exact hk
+    exact Nat.mul_lt_mul_of_pos_right hlt hk
+
+/-! ### new denominators -/
+
+theorem zipIdxFrom_fst_lt {α} (l : List α) : ∀ n, ∀ q ∈ zipIdxFrom n l, n ≤ q.1 := by
+  induction l with
+  | nil => intro n q hq; cases hq
+  | cons a t ih =>
+    intro n q hq
+    simp only [zipIdxFrom, List.mem_cons] at hq
+    rcases hq with rfl | hq
+    · exact Nat.le_refl _
+    · exact Nat.le_of_succ_le (ih (n + 1) q hq)
+
+theorem zipIdxFrom_nodup {α} (l : List α) : ∀ n, (zipIdxFrom n l).Pairwise (fun a b => a.1 ≠ b.1) := by
+  induction l with
+  | nil => intro n; exact List.Pairwise.nil
+  | cons a t ih =>
+    intro n
+    simp only [zipIdxFrom]
+    refine List.Pairwise.cons ?_ (ih (n + 1))
+    intro q hq
+    have := zipIdxFrom_fst_lt t (n + 1) q hq
+    simp only []
+    omega
+
+theorem takeWhile_index {α} (d : Nat × α) (l : List (Nat × α)) (hnd : l.Pairwise (fun a b => a.1 ≠ b.1)) (x : Nat × α) (hx : x ∈ l) :
+    (l.takeWhile (fun q => decide (q.1 ≠ x.1))).length < l.length ∧
+    l.getD (l.takeWhile (fun q => decide (q.1 ≠ x.1))).length d = x := by
+  induction l with
+  | nil => cases hx
+  | cons a t ih =>
+    have hpw := List.pairwise_cons.mp hnd
+    by_cases hax : a.1 = x.1
+    · have : a = x := by
+        rcases List.mem_cons.mp hx with h | h
+        · exact h.symm
+        · exact absurd hax (hpw.1 x h)
+      subst this
+      simp [List.takeWhile]
+    · rcases List.mem_cons.mp hx with h | h
+      · exact absurd (by rw [h]) hax
+      · obtain ⟨h1, h2⟩ := ih hpw.2 h
+        have hp : decide (a.1 ≠ x.1) = true := by simp [hax]
+        rw [List.takeWhile_cons]
+        simp only [hp, ↓reduceIte]
+        refine ⟨by simp only [List.length_cons]; omega, ?_⟩
+        simp only [List.length_cons, List.getD_cons_succ]
+        exact h2
+
+/-- **Every row's new denominator is a positive multiple of its own denominator** (`find_lcm` per
+(measure, channel) group, assigned back row by row) — the premise of `slot_exact`. -/
+theorem newDens_dvd (thr : Nat) (rows : List WSlot) (hpos : ∀ r ∈ rows, 0 < r.den) :
+    (newDens thr rows).length = rows.length ∧
+    ∀ p ∈ (zipIdxFrom 0 rows).zip (newDens thr rows), p.1.2.den ∣ p.2 ∧ 0 < p.2 := by
+  have hmem : ∀ q ∈ zipIdxFrom 0 rows, q.2 ∈ rows := by
+    have : ∀ (l : List WSlot) n, ∀ q ∈ zipIdxFrom n l, q.2 ∈ l := by
+      intro l
+      induction l with
+      | nil => intro n q hq; cases hq
+      | cons a t ih =>
+        intro n q hq
+        simp only [zipIdxFrom, List.mem_cons] at hq
+        rcases hq with rfl | hq
+        · simp
+        · exact List.mem_cons_of_mem _ (ih _ q hq)
+    exact this rows 0
+  have hlen : (zipIdxFrom 0 rows).length = rows.length := by
+    have : ∀ (l : List WSlot) n, (zipIdxFrom n l).length = l.length := by
+      intro l; induction l with
+      | nil => intro n; rfl
+      | cons a t ih => intro n; simp [zipIdxFrom, ih]
+    exact this rows 0
+  constructor
+  · simp [newDens, hlen]
+  · intro p hp
+    unfold newDens at hp
+    rw [List.zip_map_right, List.mem_map] at hp
+    obtain ⟨⟨q, q'⟩, hq, rfl⟩ := hp
+    have hqq : q = q' := by
+      have := List.of_mem_zip hq
+      have hz : ∀ (l : List (Nat × WSlot)), ∀ ab ∈ l.zip l, ab.1 = ab.2 := by
+        intro l; induction l with
+        | nil => intro ab h; cases h
+        | cons a t ih =>
+          intro ab h
+          simp only [List.zip_cons_cons, List.mem_cons] at h
+          rcases h with rfl | h
+          · rfl
+          · exact ih ab h
+      exact hz _ _ hq
+    subst hqq
+    have hqm : q ∈ zipIdxFrom 0 rows := (List.of_mem_zip hq).1
+    simp only [Prod.map_apply, id_eq]
+    set grp := (zipIdxFrom 0 rows).filter (fun r => r.2.measure = q.2.measure && r.2.channel = q.2.channel) with hgrp
+    have hqg : q ∈ grp := by
+      rw [hgrp, List.mem_filter]
+      exact ⟨hqm, by simp⟩
+    have hnd : grp.Pairwise (fun a b => a.1 ≠ b.1) := (zipIdxFrom_nodup rows 0).filter _
+    have hix := takeWhile_index q grp hnd q hqg
+    have hposg : ∀ x ∈ grp.map (·.2.den), 0 < x := by
+      intro x hx
+      obtain ⟨r, hr, rfl⟩ := List.mem_map.mp hx
+      exact hpos _ (hmem r (List.mem_filter.mp hr).1)
+    generalize (grp.takeWhile (fun r => decide (r.1 ≠ q.1))).length = n at hix ⊢
+    have hl : n < (grp.map (·.2.den)).length := by rw [List.length_map]; exact hix.1
+    have hd := (findLcm_dvd (grp.map (·.2.den)) thr hposg).2 n hl
+    have hget : (grp.map (·.2.den)).getD n 0 = q.2.den := by
+      obtain ⟨hn, hgq⟩ := hix
+      have h1 : grp.getD n q = grp[n]'hn := by
+        simp [List.getD_eq_getElem?_getD, List.getElem?_eq_getElem hn]
+      rw [List.getD_eq_getElem?_getD, List.getElem?_eq_getElem hl, Option.getD_some, List.getElem_map, ← h1, hgq]
+    rw [hget] at hd
+    exact hd
+
+/-- **A written object denotes its snap.** A row with a normalised 4/4 snap (`beat = num/bden ≥ 0`) becomes slot
+`idx` of a line with `nd` slots (`den = 4·bden ∣ nd`); by the book that slot is beat `4·idx/nd` of the measure —
+exactly the snap's beat.  (`slot_exact` composed with `den = beat.den·4`, `num = beat.num`.) -/
+theorem slot_roundtrip (r : WRow) (nd : Nat) (hmet : r.snap.met = some 4) (hb : 0 ≤ r.snap.beat) (hnd : 0 < nd)
+    (hdvd : (slotOfRow r).den ∣ nd) :
+    4 * (((cellOf (slotOfRow r) nd).idx : Nat) : Rat) / ((nd : Nat) : Rat) = r.snap.beat := by
+  have hden : (slotOfRow r).den = r.snap.beat.den * 4 := by
+    simp only [slotOfRow, hmet, Option.getD_some]
+    have : ((4 : Rat).floor).toNat = 4 := by decide +kernel
+    rw [this]
+  have hdpos : 0 < (slotOfRow r).den := by
+    rw [hden]; exact Nat.mul_pos r.snap.beat.den_pos (by decide)
+  have hex := (slot_exact (slotOfRow r) nd hdpos hdvd).1
+  have hnum : (((slotOfRow r).num : Nat) : Rat) = (r.snap.beat.num : Rat) := by
+    have h0 : 0 ≤ r.snap.beat.num := Rat.num_nonneg.mpr hb
+    have : (((slotOfRow r).num : Nat) : Int) = r.snap.beat.num := by
+      simp only [slotOfRow]; exact Int.toNat_of_nonneg h0
+    exact_mod_cast congrArg (fun z : Int => (z : Rat)) this
+  have hexq : (((cellOf (slotOfRow r) nd).idx : Nat) : Rat) * (((slotOfRow r).den : Nat) : Rat) =
+      (((slotOfRow r).num : Nat) : Rat) * ((nd : Nat) : Rat) := by exact_mod_cast congrArg (fun z : Nat => (z : Rat)) hex
+  rw [hden, hnum] at hexq
+  have hbd : ((r.snap.beat.den : Nat) : Rat) ≠ 0 := by exact_mod_cast r.snap.beat.den_nz
+  have hndq : ((nd : Nat) : Rat) ≠ 0 := by exact_mod_cast Nat.pos_iff_ne_zero.mp hnd
+  have hq : r.snap.beat = (r.snap.beat.num : Rat) / ((r.snap.beat.den : Nat) : Rat) := (Rat.num_div_den r.snap.beat).symm
+  rw [hq]
+  push_cast at hexq
+  field_simp
+  linarith
+
+/-! ### the slot fill -/
+
+def fillFrom (seq : List Bytes) (cells : List WCell) : List Bytes :=
+  cells.foldl (fun seq c => seq.set c.idx c.value) seq
+
+theorem fillFrom_length (cells : List WCell) : ∀ seq, (fillFrom seq cells).length = seq.length := by
+  induction cells with
+  | nil => intro seq; rfl
+  | cons c t ih => intro seq; simp only [fillFrom, List.foldl_cons] at *; rw [ih]; simp
+
+theorem fillFrom_other (cells : List WCell) (i : Nat) (d : Bytes) :
+    ∀ seq, (∀ c ∈ cells, c.idx ≠ i) → (fillFrom seq cells).getD i d = seq.getD i d := by
+  induction cells with
+  | nil => intro seq _; rfl
+  | cons c t ih =>
+    intro seq h
+    simp only [fillFrom, List.foldl_cons] at *
+    rw [ih _ (fun x hx => h x (by simp [hx]))]
+    exact getD_set_ne _ _ _ _ _ (h c (by simp))
+
+theorem fillFrom_get (cells : List WCell) (d : Bytes) :
+    ∀ seq, cells.Pairwise (fun a b => a.idx ≠ b.idx) → (∀ c ∈ cells, c.idx < seq.length) →
+      ∀ c ∈ cells, (fillFrom seq cells).getD c.idx d = c.value := by
+  induction cells with
+  | nil => intro seq _ _ c hc; cases hc
+  | cons x t ih =>
+    intro seq hpw hlt c hc
+    have hpw' := List.pairwise_cons.mp hpw
+    rcases List.mem_cons.mp hc with rfl | hct
+    · have := fillFrom_other t c.idx d (seq.set c.idx c.value) (fun y hy => fun e => hpw'.1 y hy e.symm)
+      simp only [fillFrom, List.foldl_cons] at *
+      rw [this]
+      exact getD_set_eq _ _ _ _ (hlt c (by simp))
+    · simp only [fillFrom, List.foldl_cons]
+      exact ih (seq.set x.idx x.value) hpw'.2 (fun y hy => by simpa using hlt y (by simp [hy])) c hct
+
+/-- **Nothing is merged, nothing is dropped** (one written line): if the cells of a line sit on pairwise
+different slots inside the line, the line has exactly `den` slots, every cell's id is on its own slot, and every
+other slot is the empty object `00`. -/
+theorem no_merge_no_drop (den : Nat) (cells : List WCell)
+    (hpw : cells.Pairwise (fun a b => a.idx ≠ b.idx)) (hlt : ∀ c ∈ cells, c.idx < den) :
+    (fillSeq den cells).length = den ∧
+    (∀ c ∈ cells, (fillSeq den cells).getD c.idx [] = c.value) ∧
+    (∀ i, (∀ c ∈ cells, c.idx ≠ i) → i < den → (fillSeq den cells).getD i [] = ['0', '0']) := by
+  have hlen : (List.replicate den ['0', '0']).length = den := by simp
+  refine ⟨?_, ?_, ?_⟩
+  · show (fillFrom _ cells).length = den
+    rw [fillFrom_length]; exact hlen
+  · intro c hc
+    exact fillFrom_get cells [] _ hpw (fun y hy => by rw [hlen]; exact hlt y hy) c hc
+  · intro i hi hid
+    show (fillFrom _ cells).getD i [] = _
+    rw [fillFrom_other cells i [] _ hi]
+    simp [List.getD_eq_getElem?_getD, hid]
+
+/-! ### line syntax -/
+
+theorem measure_text_b : ∀ m, m < 1000 →
+    (match padLeft 3 '0' (showNat m) with
+     | [a, b, c] => isDigit a && isDigit b && isDigit c
+     | _ => false) = true := by
+  decide +kernel
+
+theorem measure_text (m : Nat) (hm : m < 1000) :
+    ∃ a b c, padLeft 3 '0' (showNat m) = [a, b, c] ∧ isDigit a = true ∧ isDigit b = true ∧ isDigit c = true := by
+  have h := measure_text_b m hm
+  generalize padLeft 3 '0' (showNat m) = l at h
+  match l, h with
+  | [a, b, c], h =>
+    simp only [Bool.and_eq_true] at h
+    exact ⟨a, b, c, rfl, h.1.1, h.1.2, h.2⟩
+
+theorem fillFrom_all (P : Bytes → Prop) (cells : List WCell) (hv : ∀ c ∈ cells, P c.value) :
+    ∀ seq : List Bytes, (∀ x ∈ seq, P x) → ∀ x ∈ fillFrom seq cells, P x := by
+  induction cells with
+  | nil => intro seq h; exact h
+  | cons c t ih =>
+    intro seq h
+    simp only [fillFrom, List.foldl_cons]
+    apply ih (fun y hy => hv y (by simp [hy]))
+    intro x hx
+    rcases List.mem_or_eq_of_mem_set hx with h1 | h1
+    · exact h x h1
+    · rw [h1]; exact hv c (by simp)
+
+theorem flatten_two (l : List Bytes) (h : ∀ x ∈ l, x.length = 2 ∧ x.all isB36 = true) :
+    l.flatten.length = 2 * l.length ∧ l.flatten.all isB36 = true := by
+  induction l with
+  | nil => simp
+  | cons x t ih =>
+    have hx := h x (by simp)
+    have ht := ih (fun y hy => h y (by simp [hy]))
+    constructor
+    · simp only [List.flatten_cons, List.length_append, hx.1, ht.1, List.length_cons]; omega
+    · simp only [List.flatten_cons, List.all_append, hx.2, ht.2, Bool.and_self]
+
+/-- **Every written data line is syntactically valid**: for a measure below 1000, a two-character base-36
+channel, a positive denominator and two-character base-36 ids, the line is `#mmmcc:` followed by exactly
+`2·den` base-36 characters. -/
+theorem line_valid (cells : List WCell) (k : WCell) (hm : 0 ≤ k.measure ∧ k.measure < 1000) (hden : 0 < k.den)
+    (hch : ∃ a b, k.channel = [a, b] ∧ isB36 a = true ∧ isB36 b = true)
+    (hv : ∀ c ∈ cells, c.value.length = 2 ∧ c.value.all isB36 = true) :
+    lineValid (lineOf cells k) = true ∧ (lineOf cells k).length = 7 + 2 * k.den := by
+  obtain ⟨a, b, hab, ha, hb⟩ := hch
+  have hmn : k.measure.toNat < 1000 := by omega
+  obtain ⟨m1, m2, m3, hmt, h1, h2, h3⟩ := measure_text k.measure.toNat hmn
+  have hseq : ∀ x ∈ fillSeq k.den (cells.filter (sameLine k)), x.length = 2 ∧ x.all isB36 = true := by
+    apply fillFrom_all (fun x => x.length = 2 ∧ x.all isB36 = true)
+    · intro c hc; exact hv c (List.mem_filter.mp hc).1
+    · intro x hx
+      rw [List.eq_of_mem_replicate hx]
+      decide
+  have hfl := flatten_two _ hseq
+  have hlen : (fillSeq k.den (cells.filter (sameLine k))).length = k.den := by
+    show (fillFrom _ _).length = _
+    rw [fillFrom_length]; simp
+  rw [hlen] at hfl
+  have hne : (fillSeq k.den (cells.filter (sameLine k))).flatten.isEmpty = false := by
+    cases hf : (fillSeq k.den (cells.filter (sameLine k))).flatten with
+    | nil => rw [hf] at hfl; simp at hfl; omega
+    | cons _ _ => rfl
+  constructor
+  · simp only [lineOf, hmt, hab, List.cons_append, List.nil_append, lineValid, h1, h2, h3, ha, hb, hne, hfl.1, hfl.2,
+      Bool.and_self, Bool.not_false, Bool.true_and, Bool.and_true, decide_eq_true_eq]
+    omega
+  · simp only [lineOf, hmt, hab, List.cons_append, List.nil_append, List.length_cons, hfl.1]
+    omega
+
+/-! ### D06 -/
+
+/-- **D06.** Tempo 100/3 is written as `#BPM02 33.333`: the written file denotes a tempo of 33333/1000, and the
+object one measure after the tempo change — at 11200 ms in memory — lies at 11200 + 800/11111 ms in the file
+(every later measure adds the same drift).  Grid of 4; both objects sit on measure lines. -/
+theorem bpm_3f_counterexample :
+    let chart : WChart := { title := "t".toList, artist := "a".toList, version := "1".toList, lnEnd := "ZZ".toList,
+                            samples := [], misc := [], bpms := [⟨120, 4, 0⟩, ⟨100 / 3, 4, 4000⟩],
+                            hits := [⟨1, [], 4000⟩, ⟨1, [], 11200⟩], holds := [] }
+    (match layoutOf "BME", bookLayout "BME" with
+     | some l, some b =>
+       (match write (grid 4).toArray l "01".toList chart with
+        | .ok lines =>
+          (match denote b lines with
+           | some d => decide (d.hits.map (·.offset) = [4000, 11200 + 800 / 11111] ∧
+                               d.tempo.map (·.bpm) = [120, 120, 33333 / 1000]) && lines.contains "#BPM02 33.333".toList
+           | none => false)
+        | .error _ => false)
+     | _, _ => false) = true := by
+  decide +kernel
+
+/-- a written chart read back by the book (grid of 4): header, LNOBJ pair, off-measure objects, two tempo points -/
+example :
+    let chart : WChart := { title := "t".toList, artist := "a".toList, version := "1".toList, lnEnd := "ZZ".toList,
+                            samples := [("0A".toList, "k.wav".toList)], misc := [],
+                            bpms := [⟨120, 4, 0⟩, ⟨60, 4, 2000⟩],
+                            hits := [⟨1, "k.wav".toList, 250⟩, ⟨2, [], 3000⟩], holds := [⟨3, [], 500, 2500⟩] }
+    (match layoutOf "BME", bookLayout "BME" with
+     | some l, some b =>
+       (match write (grid 4).toArray l "01".toList chart with
+        | .ok lines =>
+          (match denote b lines with
+           | some d => decide (d.hits = [⟨1, "k.wav".toList, 250⟩, ⟨2, [], 3000⟩] ∧ d.holds = [⟨3, [], 500, 2000⟩]) &&
+                       lines.all (fun l => !(isDataLine l) || lineValid l)
+           | none => false)
+        | .error _ => false)
+     | _, _ => false) = true := by
+  decide +kernel
+
+end Reamber.BMS
